@@ -34,6 +34,7 @@ PermTo(order, target) == [i \in 1..Len(target) |-> CHOOSE j \in 1..Len(order) : 
 Conforms == LET c == Canon(table, idkind, text) IN
    /\ Rec.status = c.status
    /\ Rec.input_untouched                     \* the caller's table is never modified
+   /\ Rec.csv_same                            \* the same table read from a CSV file: same verdict, same canonical form
    /\ c.status = "ok" => /\ SameForm(Rec.form, c)
                           /\ Rec.tensors_ok      \* padding, mask exactly on present entries, aligned ages / values, counters
 \* to_pandas + re-ingestion: every individual keeps exactly its visits and values (single-precision rounding aside);
